@@ -3,7 +3,7 @@
    input, non-negativity) for the nodes listed per date in /verif/c16_baseline.json; the remaining
    nodes are covered by the corner sweeps of the real engine only. *)
 From Coq Require Import ZArith QArith Qcanon Bool String List.
-From GettsimModel Require Import Num Val Ast Eval Sign Itv Absint PiecewiseProofs PiecewiseSign Priority Contrib ChkC16.
+From GettsimModel Require Import Num Val Ast Eval Column Engine Dag Sign Itv Absint PiecewiseProofs PiecewiseSign Priority Contrib Table ChkC16 TableSound.
 Import ListNotations.
 Open Scope Qc_scope.
 
@@ -14,6 +14,28 @@ Theorem C16_rule_analysis_sound : forall ft fd l vs v,
   Forall2 arel l vs -> call_rule ft fd vs = Ok v -> arel (rule_aval ft fd l) v.
 Proof. exact rule_aval_sound. Qed.
 Print Assumptions C16_rule_analysis_sound.
+
+(* END TO END ON THE MODEL: for the concrete engine Table.run_table (every node kind: rules through
+   numpy.vectorize with the declared dtype and statutory rounding, group / pointer aggregates, joins,
+   unit conversions, id builders), if the supplied columns have the length of the table and their
+   cells are described by the classes of the documented inputs, then every cell of every computed
+   column is described by the class the dataflow ChkC16.a_nodes assigns to its node *)
+Theorem C16_table_sound : forall ft P rounding nrows data S targets dtab t,
+  forallb (fun n => negb (Sign.smem (d_name n) data)) (live_sub S targets dtab) = true ->
+  tab_ok nrows data [] dtab -> run_table ft P rounding nrows S targets dtab = Ok t ->
+  tab_ok nrows data (a_nodes ft P data (live_sub S targets dtab) []) t.
+Proof. exact run_table_sound. Qed.
+Print Assumptions C16_table_sound.
+
+Theorem C16_column_finite : forall nrows data K t x c,
+  tab_ok nrows data K t -> tget column x t = Some c -> a_fin (class_of data K x) = true -> Forall finv (col_vals c).
+Proof. exact column_finite. Qed.
+Print Assumptions C16_column_finite.
+
+Theorem C16_column_nonneg : forall nrows data K t x c,
+  tab_ok nrows data K t -> tget column x t = Some c -> a_nn (class_of data K x) = true -> Forall fnn (col_vals c).
+Proof. exact column_nonneg. Qed.
+Print Assumptions C16_column_nonneg.
 
 (* what the abstract result means *)
 Theorem C16_fin_means_finite : forall a v, a_fin a = true -> arel a v -> finv v.
